@@ -36,6 +36,12 @@ def corpus(rng, thorough):
     vs += [b"a" * n for n in range(1, 40)] + [b"\x00" * n for n in (11, 12, 13, 401, 402)] + ["ab" * k for k in range(1, 12)]
     # equal-but-differently-typed scalars next to each other, in both orders (history dependence)
     vs += [1.0, True, 1.0, 0.0, False, 0.0, -0.0, 0.0, 1, 1.0, True, 1, None, 0, False]
+    # the other built-in types that compare equal to a basic one without being it (a bytearray equals the bytes it holds, a range / dict view ...)
+    import array, collections, datetime, decimal, fractions
+    vs += [bytearray(b"abc"), bytearray(), bytearray(b"12"), bytearray(range(256)) * 3, [bytearray(b"in a list")], range(5), range(0), slice(1, 5, 2),
+           array.array("b", [1, 2, 3]), collections.OrderedDict(a=1, b=2), collections.deque([1, 2]), collections.Counter("abca"), collections.defaultdict(list, a=[1]),
+           decimal.Decimal("1.50"), fractions.Fraction(1, 3), datetime.date(2024, 2, 29), datetime.datetime(2024, 2, 29, 12, 0, 1, 5), datetime.timedelta(0),
+           Ellipsis, NotImplemented, int, b"".join, float("-inf")]
     for d in (9, 10, 11, 12):
         vs.append(int("9" * d))
         vs.append(-int("9" * d))
